@@ -620,6 +620,9 @@ class Exec:
                 other = a if b is NONE else b
                 r = z3.BoolVal(other is NONE)
                 return simp(z3.Not(r)) if isinstance(op, ast.IsNot) else r
+            if isinstance(a, Ref) and isinstance(b, Ref):
+                r = z3.BoolVal(a.id == b.id)
+                return simp(z3.Not(r)) if isinstance(op, ast.IsNot) else r
             raise Unsupported("is on non-None")
         if isinstance(op, (ast.Eq, ast.NotEq)):
             if (a is NONE) != (b is NONE):
@@ -890,6 +893,8 @@ class Exec:
         if self.reg.is_spec_module(fi.module.name):
             return self.spec_call(fi, env, fr)
         con = self.reg.get(fi.qualname)
+        if fi.qualname in self.reg.force_inline:
+            return self.inline_call(fi, env, fr)
         if con is not None and not con.inline and not (self.reg.current is con and con.allow_self_inline):
             return self.reg.apply_contract(self, con, fi, env, fr, node)
         if self.reg.may_inline(fi):
